@@ -892,3 +892,157 @@ Section Lookups.
         rewrite HS, map_app, app_assoc, rev_app_distr. cbn [map rev app]. rewrite Ee. reflexivity.
     - pose proof (i_head _ _ _ _ _ _ HI) as Hh. rewrite Hls in Hh. destruct Hh as (-> & _). reflexivity.
   Qed.
+
+  (* ---------------------------------------------------------------- canonical lookup *)
+
+  Lemma num0 s Fin S : Inv s Fin S -> num_of (db s) 0 = None.
+  Proof.
+    intros HI. pose proof (i_db _ _ _ _ _ _ HI) as Hdb.
+    apply num_of_zero; [apply wf_of; exact Hdb | apply (di_lid _ _ _ Hdb) | apply (di_extra _ _ _ Hdb)].
+  Qed.
+
+  (* the complete answer: the walk over the retained chain of the head *)
+  Lemma canonical_walk s Fin S hd p q0 bot ehd n : Inv s Fin S -> last_sent s = Some hd ->
+    Shape s Fin S hd p q0 bot ehd ->
+    canonical_block_at s n = canon_walk (num_of (db s) bot) (map eb (rev (q0 ++ p))) n.
+  Proof.
+    intros HI Hls [Hc HS Hq0 Hbot Hq Hf Ee HhU].
+    pose proof (wf_of _ (i_db _ _ _ _ _ _ HI)) as Hwf.
+    destruct (bic_walk (db s) n bot (bid hd) (q0 ++ p) ehd Hwf (num0 _ _ _ HI) Hbot Hq Hf) as (r & Hr & Hcr).
+    rewrite Ee in Hr. unfold canonical_block_at. rewrite Hls. unfold bref. rewrite Hr. exact Hcr.
+  Qed.
+
+  (* a block of the consumer chain that is retained together with everything above it sits on the retained chain *)
+  Lemma stack_block_on_chain s Fin S hd p q0 bot ehd c : Inv s Fin S -> Ext s Fin S -> last_sent s = Some hd ->
+    Shape s Fin S hd p q0 bot ehd -> In c S -> (forall c', In c' S -> bnum c <= bnum c' -> st s c') ->
+    exists qq ec E' X1, q0 ++ p = qq ++ ec :: E' /\ eb ec = c /\ rev S = X1 ++ map eb (ec :: E').
+  Proof.
+    intros HI HE Hls [Hc HS Hq0 Hbot Hq Hf Ee HhU] Hin Hst.
+    pose proof (i_db _ _ _ _ _ _ HI) as Hdb. pose proof (wf_of _ Hdb) as Hwf.
+    destruct (stack_linked s Fin S p (bid hd) HI HE Hc) as [[y Hlk] HXU].
+    assert (HX : rev S = Fin ++ map eb p) by (rewrite HS; apply rev_involutive).
+    rewrite <- HX in Hlk, HXU.
+    assert (Hin' : In c (rev S)) by (apply in_rev in Hin; exact Hin).
+    apply in_split in Hin' as (X1 & X2 & HX12). rewrite HX12 in Hlk.
+    apply linked_split in Hlk as [_ Hlk]. cbn [linked] in Hlk. destruct Hlk as [Hpc Hlk2].
+    assert (HcU : In c U) by (apply HXU; rewrite HX12; apply in_or_app; right; left; reflexivity).
+    assert (HX2U : forall z, In z X2 -> In z U).
+    { intros z Hz. apply HXU. rewrite HX12. apply in_or_app. right. right. exact Hz. }
+    pose proof (linked_lt X2 c HcU HX2U Hlk2) as Hlt.
+    assert (HinS : forall x, In x (c :: X2) -> In x S).
+    { intros x Hx. apply in_rev. rewrite HX12. apply in_or_app. right. exact Hx. }
+    destruct (linked_chain (store (db s)) (c :: X2) (bparent c)) as (E & HcE & HmE).
+    - cbn [linked]. split; [reflexivity | exact Hlk2].
+    - intros x Hx.
+      assert (Hsx : st s x).
+      { apply Hst; [apply HinS; exact Hx|]. destruct Hx as [<-|Hx]; [lia | specialize (Hlt x Hx); lia]. }
+      assert (HxU : In x U) by (destruct Hx as [<-|Hx]; [exact HcU | apply HX2U; exact Hx]).
+      destruct (st_entry s x (di_inU _ _ _ Hdb) HxU Hsx) as (e & He & Eex & _). eauto.
+    - intros x [<-|Hx].
+      + destruct (U_id c HcU) as (_ & _ & H). exact H.
+      + intros E0. pose proof (U_up c x HcU (HX2U x Hx) (eq_sym E0)). specialize (Hlt x Hx). lia.
+    - (* the top of that chain is the head *)
+      assert (Htop : match rev (c :: X2) with t :: _ => bid t | [] => bparent c end = bid hd).
+      { pose proof (head_is_top s Fin S HI HE) as Ht. rewrite Hls in Ht.
+        destruct S as [|top S']; [discriminate|]. injection Ht as ->.
+        assert (HS2 : top :: S' = rev (c :: X2) ++ rev X1).
+        { rewrite <- (rev_involutive (top :: S')), HX12, rev_app_distr. reflexivity. }
+        destruct (rev (c :: X2)) as [|t l] eqn:R.
+        - apply (f_equal (@rev block)) in R. rewrite rev_involutive in R. discriminate.
+        - cbn [app] in HS2. congruence. }
+      rewrite Htop in HcE.
+      destruct (chain_suffix_of _ bot Hbot _ _ _ HcE _ Hq) as (qq & Hqq & _).
+      destruct E as [|ec E']; [discriminate|]. cbn [map] in HmE. injection HmE as Hec HE'.
+      exists qq, ec, E', X1. split; [exact Hqq|]. split; [exact Hec|]. cbn [map]. rewrite Hec, HE'. exact HX12.
+  Qed.
+
+  Lemma chain_map_split (q : list entry) qq ec E' : q = qq ++ ec :: E' ->
+    map eb (rev q) = map eb (rev E') ++ eb ec :: map eb (rev qq).
+  Proof. intros ->. rewrite rev_app_distr. cbn [rev]. rewrite <- app_assoc, map_app. reflexivity. Qed.
+
+  (* hit: the block of the consumer chain at that height *)
+  Lemma canonical_hit s Fin S c : Inv s Fin S -> Ext s Fin S -> In c S ->
+    (forall c', In c' S -> bnum c <= bnum c' -> st s c') -> canonical_block_at s (bnum c) = bid c.
+  Proof.
+    intros HI HE Hin Hst.
+    pose proof (head_is_top s Fin S HI HE) as Hls. destruct S as [|hd S'] eqn:ES; [destruct Hin|]. rewrite <- ES in *.
+    destruct (shape_of s Fin S hd HI HE Hls) as (p & q0 & bot & ehd & Hsh).
+    destruct (stack_block_on_chain s Fin S hd p q0 bot ehd c HI HE Hls Hsh Hin Hst) as (qq & ec & E' & X1 & Hq & Hec & _).
+    rewrite (canonical_walk s Fin S hd p q0 bot ehd _ HI Hls Hsh), (chain_map_split _ _ _ _ Hq).
+    pose proof (sh_q _ _ _ _ _ _ _ _ Hsh) as Hch. rewrite Hq in Hch.
+    destruct (chain_split_order _ _ _ _ _ _ (wf_of _ (i_db _ _ _ _ _ _ HI)) Hch) as [Hab _].
+    rewrite <- Hec. apply canon_walk_hit; [|reflexivity].
+    intros x Hx. apply in_map_iff in Hx as (e & <- & He). apply in_rev in He. apply Hab. exact He.
+  Qed.
+
+  (* the blocks of the consumer chain inside the kept window are retained *)
+  Lemma window_stored s Fin S c : Inv s Fin S -> Ext s Fin S -> In c S ->
+    rn (libref (db s)) - kept <= bnum c -> st s c.
+  Proof.
+    intros HI HE Hin Hn.
+    pose proof (head_is_top s Fin S HI HE) as Hls. destruct S as [|hd S'] eqn:ES; [destruct Hin|]. rewrite <- ES in *.
+    pose proof (i_head _ _ _ _ _ _ HI) as Hh. rewrite Hls in Hh. destruct Hh as (_ & p & Hc & HS & _).
+    rewrite HS in Hin. apply in_rev in Hin. apply in_app_or in Hin as [Hin|Hin].
+    - apply (x_kept _ _ _ HE); assumption.
+    - apply in_map_iff in Hin as (e & <- & He). apply st_of_entry. eapply chain_in; eassumption.
+  Qed.
+
+  Lemma canonical_window s Fin S c : Inv s Fin S -> Ext s Fin S -> In c S ->
+    rn (libref (db s)) - kept <= bnum c -> canonical_block_at s (bnum c) = bid c.
+  Proof.
+    intros HI HE Hin Hn. apply (canonical_hit s Fin S c HI HE Hin).
+    intros c' Hc' Hle. apply (window_stored s Fin S c' HI HE Hc'). lia.
+  Qed.
+
+  (* the number the walk sees when it arrives at the LIB: the LIB number *)
+  Lemma next_at_lib s Fin S hd p q0 bot ehd : Inv s Fin S -> Shape s Fin S hd p q0 bot ehd ->
+    next_num (num_of (db s) bot) (map eb (rev q0)) = Some (rn (libref (db s))).
+  Proof.
+    intros HI [Hc HS Hq0 Hbot Hq Hf Ee HhU]. pose proof (i_db _ _ _ _ _ _ HI) as Hdb.
+    destruct q0 as [|el q0' _] using rev_ind.
+    - apply chain_nil_inv in Hq0. subst bot. cbn. apply (di_num _ _ _ Hdb).
+    - rewrite rev_app_distr. cbn [rev app map next_num].
+      destruct (chain_top _ _ _ _ _ Hq0) as [Hfl _]. f_equal. apply (lib_stored_num _ (di_num _ _ _ Hdb) _ Hfl).
+  Qed.
+
+  (* the blocks of the consumer chain above the LIB are the entries of the chain p *)
+  Lemma above_lib_in_p s Fin S hd p q0 bot ehd c : Inv s Fin S -> Shape s Fin S hd p q0 bot ehd ->
+    In c S -> rn (libref (db s)) < bnum c -> exists A a B, p = A ++ a :: B /\ eb a = c.
+  Proof.
+    intros HI [Hc HS Hq0 Hbot Hq Hf Ee HhU] Hin Hn. rewrite HS in Hin. apply in_rev in Hin.
+    apply in_app_or in Hin as [Hin|Hin].
+    - pose proof (i_fin _ _ _ _ _ _ HI) as Hfin. rewrite Forall_forall in Hfin. destruct (Hfin c Hin). lia.
+    - apply in_map_iff in Hin as (a & Ea & Ha). apply in_split in Ha as (A & B & ->). eauto.
+  Qed.
+
+  (* a height above the LIB that no block of the consumer chain has: the next block above (the hole answer
+     of BlockInCurrentChain), also directly above the LIB *)
+  Lemma canonical_gap s Fin S c2 n : Inv s Fin S -> Ext s Fin S -> In c2 S ->
+    rn (libref (db s)) < n -> n < bnum c2 -> (forall c, In c S -> n <= bnum c -> bnum c2 <= bnum c) ->
+    canonical_block_at s n = bid c2.
+  Proof.
+    intros HI HE Hin Hlo Hhi Hmin.
+    pose proof (head_is_top s Fin S HI HE) as Hls. destruct S as [|hd S'] eqn:ES; [destruct Hin|]. rewrite <- ES in *.
+    destruct (shape_of s Fin S hd HI HE Hls) as (p & q0 & bot & ehd & Hsh).
+    destruct (above_lib_in_p s Fin S hd p q0 bot ehd c2 HI Hsh Hin) as (A & a & B & Hp & Ea); [lia|].
+    rewrite (canonical_walk s Fin S hd p q0 bot ehd _ HI Hls Hsh).
+    assert (Hq : q0 ++ p = (q0 ++ A) ++ a :: B) by (rewrite Hp, <- app_assoc; reflexivity).
+    rewrite (chain_map_split _ _ _ _ Hq).
+    pose proof (sh_p _ _ _ _ _ _ _ _ Hsh) as Hcp. rewrite Hp in Hcp.
+    destruct (chain_split_order _ _ _ _ _ _ (wf_of _ (i_db _ _ _ _ _ _ HI)) Hcp) as [Hab Hbe].
+    rewrite <- Ea.
+    assert (Hnx : exists pn, next_num (num_of (db s) bot) (map eb (rev (q0 ++ A))) = Some pn /\ pn < n).
+    { rewrite rev_app_distr, map_app. destruct A as [|a1 A' _] using rev_ind.
+      - cbn [rev map app]. exists (rn (libref (db s))). split; [apply (next_at_lib s Fin S hd p q0 bot ehd HI Hsh) | exact Hlo].
+      - rewrite rev_app_distr. cbn [rev app map next_num]. exists (bnum (eb a1)). split; [reflexivity|].
+        assert (Ha1 : In a1 (A' ++ [a1])) by (apply in_or_app; right; left; reflexivity).
+        specialize (Hbe a1 Ha1).
+        destruct (N.lt_ge_cases (bnum (eb a1)) n) as [H|H]; [exact H|]. exfalso.
+        assert (HinS : In (eb a1) S).
+        { rewrite (sh_S _ _ _ _ _ _ _ _ Hsh). apply in_rev. rewrite rev_involutive. apply in_or_app. right.
+          apply in_map. rewrite Hp. apply in_or_app. left. exact Ha1. }
+        specialize (Hmin (eb a1) HinS H). rewrite <- Ea in Hmin. lia. }
+    destruct Hnx as (pn & Hnx & Hpn).
+    apply (canon_walk_gap _ n _ (eb a) _ pn); [|rewrite Ea; exact Hhi | exact Hnx | exact Hpn].
+    intros x Hx. apply in_map_iff in Hx as (e & <- & He). apply in_rev in He. specialize (Hab e He). rewrite Ea in Hab. lia.
+  Qed.
